@@ -36,6 +36,8 @@ def run(chk):
     rule_operand_repeated(chk)
     rule_global_threading(chk)
     rule_simplify_cbuffers_eval(chk)
+    import semmodel
+    semmodel.rule_msl(chk, "C02.semantic")
 
 
 def rule_sibling_ops(chk):
